@@ -15,6 +15,7 @@ import IsoDT.Driver.Cli
 import IsoDT.Driver.Strftime
 import IsoDT.Driver.Construct
 import IsoDT.Driver.RatOps
+import IsoDT.Driver.RatOps2
 
 open IsoDT IsoDT.Model
 open IsoDT.Spec (Date TZ TP)
@@ -321,6 +322,7 @@ def extDispatch (toks : List String) : Option String :=
   <|> IsoDT.Driver.Text.dispatch toks
   <|> IsoDT.Driver.Strftime.dispatch toks
   <|> IsoDT.Driver.RatOps.dispatch toks
+  <|> IsoDT.Driver.RatOps2.dispatch toks
   -- <|> IsoDT.Driver.Foo.dispatch toks
 
 def dispatch (toks : List String) : String :=
